@@ -347,8 +347,8 @@ def run_seq(job: dict[str, Any]) -> dict[str, Any]:
                     bad = _bad_wait(d, cfgd["backoff_max"])
                     if bad is not None:
                         last = prefix[-1]
-                        src = _ra_class(last.get("ra")) if last["k"] == "status" else "conn"
-                        chk.violation(f"wait_out_of_range:{bad}:after_{src}", f"wait {d!r} outside [0, backoff_max={cfgd['backoff_max']}]", wit)
+                        src = "retry_after" if last["k"] == "status" and _ra_class(last.get("ra")) not in ("absent", "garbage") else "backoff"
+                        chk.violation(f"wait_out_of_range:{bad}:{src}", f"wait {d!r} outside [0, backoff_max={cfgd['backoff_max']}]", wit)
                 if len(sleeps) != max(0, sends - 1):
                     chk.skip("A_sleep_count_differs_from_resends")
                 extended = sends > L
@@ -559,7 +559,7 @@ def run_proxy(job: dict[str, Any]) -> dict[str, Any]:
                     chk.hit("B_wait_judged")
                     bad = _bad_wait(d, bmax)
                     if bad is not None:
-                        chk.violation(f"wait_out_of_range:{bad}:{where}", f"wait {d!r} outside [0, {bmax}]", wit)
+                        chk.violation(f"wait_out_of_range:{bad}:proxy_leg", f"wait {d!r} outside [0, {bmax}] during {where}", wit)
                 sleeps.clear()
 
             # ---- exchange: DFS over outcome prefixes ------------------------------
@@ -839,6 +839,7 @@ def _grid(tier: str) -> list[dict[str, Any]]:
     quick = [
         {"max_retries": 1, "backoff_base": 0.5, "backoff_max": 30.0, "retryable": DEFAULT_RS, "conn": True, "ra": True},
         {"max_retries": 2, "backoff_base": 10.0, "backoff_max": 0.05, "retryable": [429, 500, 503], "conn": True, "ra": True},
+        {"max_retries": 1, "backoff_base": 4.0, "backoff_max": 2.0, "retryable": DEFAULT_RS, "conn": False, "ra": False},
     ]
     if tier == "quick":
         return quick
